@@ -41,6 +41,81 @@ def visible_chars(text):
     return sorted(c for c in text if not re.match('\\s', c))
 
 
+CSS_WHITE = ' \t\n\r\f'      # the characters the white-space property acts on (css-text-3 4.1)
+
+
+def counter_missing(required, got):
+    """Characters of `required` (a Counter) that `got` lacks."""
+    import collections
+    return collections.Counter(required) - collections.Counter(got)
+
+
+def required_chars(text, ws, processed_by_pw=False):
+    """What must reach the box tree of one text run: under a collapsing white-space value everything but
+    white space; under pre / pre-wrap every character (spaces, tabs and newlines are content there)."""
+    if ws in COLLAPSE:
+        return [c for c in text if c not in CSS_WHITE]
+    if processed_by_pw:
+        text = text.replace('\r\n', '\n').replace('\r', '\n')
+    return list(text)
+
+
+def box_segments(box, out=None):
+    """Text runs of a real box tree before a rewriting step: (text, white-space, may_vanish).
+    A run may vanish only where a specification says so: white-space-only text that is a direct child
+    of a flex / grid container (css-flexbox-1 4, css-grid-2 6.1) or sits among internal table boxes
+    (CSS 2.1 17.2.1 rules 1.3 / 1.4), and anything inside a column / column group.  Text that Python's
+    `\\s` calls white space but CSS does not (NBSP, U+2003, U+2028) among table parts is the known
+    finding unicode-space-between-table-parts-dropped."""
+    from weasyprint.formatting_structure import boxes
+    out = [] if out is None else out
+    if isinstance(box, (boxes.TableColumnBox, boxes.TableColumnGroupBox)):
+        return out
+    kids = list(getattr(box, 'children', ()))
+    table_context = box.tabular_container or any(k.internal_table_or_caption for k in kids)
+    item_context = isinstance(box, (boxes.FlexContainerBox, boxes.GridContainerBox))
+    for kid in kids:
+        if isinstance(kid, boxes.TextBox):
+            text = kid.text
+            css_white = all(c in CSS_WHITE for c in text)
+            py_white = re.search('\\S', text) is None
+            may_vanish = (css_white and (item_context or table_context)) or (py_white and table_context)
+            out.append((text, kid.style['white_space'], may_vanish))
+        else:
+            box_segments(kid, out)
+    return out
+
+
+def text_reaches_violation(segments, result, what, processed_by_pw=False):
+    """Text reaches the box tree unchanged: every required character of every run that may not vanish is
+    in the result, and (for steps that do not rewrite text) nothing else appears."""
+    import collections
+    got = collections.Counter(real_text_all(result))
+    required = collections.Counter()
+    everything = collections.Counter()
+    for text, ws, may_vanish in segments:
+        everything.update(text)
+        if not may_vanish:
+            required.update(required_chars(text, ws, processed_by_pw))
+    missing = required - got
+    if missing:
+        lost = ''.join(sorted(missing.elements()))
+        return f'{what} lost the characters {lost!r}: {[s[:2] for s in segments]!r} -> {real_text_all(result)!r}'
+    if not processed_by_pw:
+        extra = got - everything
+        if extra:
+            return f'{what} invented the characters {"".join(sorted(extra.elements()))!r}'
+    return None
+
+
+def real_text_all(box):
+    """Every character of every text box of the result (column_groups hold none)."""
+    from weasyprint.formatting_structure import boxes
+    if isinstance(box, boxes.TextBox):
+        return box.text
+    return ''.join(real_text_all(c) for c in getattr(box, 'children', ()))
+
+
 def words(text):
     return [w for w in re.split('[ \t\n\r]+', text) if w]
 
@@ -772,6 +847,7 @@ class C08(PropCheck):
         if meta.get('prepared'):
             box = build.inline_in_block(box) if 'LineBox' not in bt.kinds_of(node) else listify(box)
         source = real_text(box)
+        segments = box_segments(box)
         malformed = 'LineBox' in bt.kinds_of(node)
         try:
             if fn == 'pw':
@@ -788,6 +864,10 @@ class C08(PropCheck):
             return None
         if visible_chars(after) != visible_chars(source) and not has_running(node):
             return f'{TREE_FUNCTIONS.get(fn, fn)} changed the text: {source!r} -> {after!r}'
+        if not has_running(node) and not malformed:
+            what = text_reaches_violation(segments, result, TREE_FUNCTIONS.get(fn, fn), processed_by_pw=fn == 'pw')
+            if what:
+                return what
         if fn == 'pipeline' and not malformed and not has_running(node):
             return proper_children_violation(result) or tables_violation(result)
         if fn == 'atb' and not has_running(node):
@@ -894,6 +974,34 @@ class C08(PropCheck):
                     what = threading_violation(texts)
                     if what and report(what, {'meta': {'fn': 'thread', 'texts': [list(t) for t in texts]}},
                                        f'thread3/{t1!r}/{t2!r}/{t3!r}'):
+                        return found
+        # one short text run in every position where a rewriting step may drop text: first in a block
+        # container, between two blocks, child of a flex / grid container, between table parts
+        def leaf(kind, kids=()):
+            return [kind, '-', 'normal', [None, None, None], '-', '', list(kids)]
+        runs = [' ', '  ', '\t', '\n', '\u00a0', '\u2003', ' a', 'a ', '\u00a0 ']
+        for text in runs:
+            for ws in WS_VALUES:
+                tnode = ['TextBox', 'A', ws, [None, None, None], '-', text, []]
+                inline = ['InlineBox', '-', ws, [None, None, None], '-', '', [['TextBox', 'A', ws, [None] * 3, '-', 'x', []]]]
+                shapes = [
+                    ('iib', ['BlockBox', '-', ws, [None] * 3, '-', '', [tnode, inline]]),
+                    ('iib', ['BlockBox', '-', ws, [None] * 3, '-', '', [leaf('BlockBox'), tnode, leaf('BlockBox')]]),
+                    ('iib', ['TableCellBox', '-', ws, [None] * 3, '-', '', [tnode, inline]]),
+                    ('flex', ['FlexBox', '-', ws, [None] * 3, '-', '', [tnode, inline]]),
+                    ('grid', ['GridBox', '-', ws, [None] * 3, '-', '', [tnode, inline]]),
+                    ('flex', ['InlineFlexBox', '-', ws, [None] * 3, '-', '', [inline, tnode]]),
+                    ('atb', ['TableBox', '-', ws, [None] * 3, '-', '', [leaf('TableRowBox'), tnode, leaf('TableRowBox')]]),
+                    ('pipeline', ['BlockBox', '-', ws, [None] * 3, '-', '', [tnode, inline, leaf('BlockBox')]]),
+                ]
+                for fn, node in shapes:
+                    run.search_stats['evaluations'] += 1
+                    meta = {'fn': fn, 'tree': node}
+                    try:
+                        what = self._replay_tree(meta)
+                    except Exception as exc:  # noqa: BLE001
+                        what = f'oracle crashed: {type(exc).__name__}: {exc}'
+                    if what and report(what, {'meta': meta}, f'corner/{fn}/{node[0]}/{text!r}/{ws}'):
                         return found
         # blockification and box classes
         for value in box_kinds.display_values():
@@ -1225,6 +1333,57 @@ def reference_whitespace(segments):
     return [c for text, _ in segments for c in text if c not in WHITE]
 
 
+TABLE_DISPLAYS = ('table', 'inline-table', 'table-row-group', 'table-header-group', 'table-footer-group',
+                  'table-row', 'table-cell', 'table-caption', 'table-column', 'table-column-group')
+ITEM_DISPLAYS = ('flex', 'inline-flex', 'grid', 'inline-grid')
+
+
+def dom_segments(kids, body_text):
+    """Text runs of a generated document: (text, computed white-space of the parent element, may_vanish),
+    with the same rule as box_segments stated on the DOM (the display values are the specified ones, which
+    only makes the oracle more tolerant where blockification changes them)."""
+    out = []
+
+    def runs(texts, ws, children, display):
+        table_context = display in TABLE_DISPLAYS or any(c[0] in TABLE_DISPLAYS for c in children)
+        item_context = display in ITEM_DISPLAYS
+        for text in texts:
+            if not text:
+                continue
+            css_white = all(c in CSS_WHITE for c in text)
+            py_white = re.search('\\S', text) is None
+            out.append((text, ws, (css_white and (item_context or table_context)) or (py_white and table_context)))
+
+    def visit(node):
+        display = node[0]
+        blockified = node[1] != 'none' or node[2] in ('absolute', 'fixed')
+        if display == 'none' or (display in ('table-column', 'table-column-group') and not blockified):
+            return
+        runs([node[7]] + [c[9] for c in node[8]], node[3], node[8], display)
+        for child in node[8]:
+            visit(child)
+    runs([body_text] + [k[9] for k in kids], 'normal', kids, 'block')
+    for k in kids:
+        visit(k)
+    return out
+
+
+def document_text_violation(kids, body_text, trees, capital):
+    """The rendered text of the document is the white-space-processed text of its DOM."""
+    import collections
+    got = ''.join(real_text_all(t) for t in trees)
+    required = collections.Counter()
+    for text, ws, may_vanish in dom_segments(kids, body_text):
+        if not may_vanish:
+            chars = ''.join(required_chars(text, ws, processed_by_pw=True))
+            required.update(chars.upper() if capital else chars)
+    missing = required - collections.Counter(got.upper() if capital else got)
+    if missing:
+        return (f'text of the document lost the characters {"".join(sorted(missing.elements()))!r}: '
+                f'{[s[:2] for s in dom_segments(kids, body_text)]!r} -> {got!r}')
+    return None
+
+
 def document_violation(html, kids, body_text, rendered=False):
     """Structure and text of the implementation's tree for a generated document."""
     from weasyprint.formatting_structure import boxes
@@ -1251,6 +1410,7 @@ def document_violation(html, kids, body_text, rendered=False):
             a, b = sorted(''.join(a).upper()), sorted(''.join(b).upper())
         if ''.join(a) != ''.join(b):
             return f'text of the document changed: {source!r} -> {got!r}'
+        return document_text_violation(kids, body_text, trees, capital)
     return None
 
 
